@@ -37,7 +37,7 @@ ANCHORS = ['recursiveloader:ManifestRecursiveLoader.save_manifests',
            'cli:UpdateCommand.__call__']
 REQUIRED = ['recursiveloader:ManifestRecursiveLoader.save_manifests',
             'presave_phases_audited', 'saves_audited', 'conservation_checked',
-            'failing_updates', 'cli_histories']
+            'failing_updates', 'cli_histories', 'cli_multi_histories']
 ASSUMPTIONS = ['writes by child processes are invisible to the audit hook; the '
                'snapshot comparison covers them',
                '"Manifest file" = a file named Manifest[.gz|.bz2|.lzma|.xz] or referenced '
@@ -53,7 +53,8 @@ PER_UNIT = 15
 
 
 def units(tier, seed):
-    return [{'k': 'gen', 'i': i, 'n': PER_UNIT} for i in range(N[tier] // PER_UNIT)]
+    return [{'k': 'gen', 'i': i, 'n': PER_UNIT} for i in range(N[tier] // PER_UNIT)] + \
+        [{'k': 'multi', 'i': i, 'n': 6} for i in range(4 if tier == 'quick' else 100)]
 
 
 def setup_worker(ctx):
@@ -390,7 +391,60 @@ def gen_history(rng, root):
     return case
 
 
+def run_multi(ctx, rng, idx):
+    """One `gemato update` invocation over several paths: a whole tree first, then
+    a sub-directory of ANOTHER tree - the second tree's TIMESTAMP must stay."""
+    from gemato import cli as gcli
+    with common.Scratch('vf-c10m-') as d:
+        a = os.path.join(d, 'A')
+        b = os.path.join(d, 'B')
+        os.makedirs(os.path.join(a, 'x'))
+        os.makedirs(os.path.join(b, 'sub', 'deep'))
+        for p, data in ((a + '/f', b'1'), (a + '/x/g', b'22'), (b + '/top', b'3'),
+                        (b + '/sub/s', b'44'), (b + '/sub/deep/t', b'5')):
+            with open(p, 'wb') as f:
+                f.write(data)
+        ts = 'TIMESTAMP 2019-03-0%dT10:00:00Z' % rng.randint(1, 9)
+        with open(a + '/Manifest', 'w') as f:
+            f.write(mtext.render([mtext.file_entry('DATA', 'f', b'1', ['MD5'])]) +
+                    (ts + '\n' if rng.random() < 0.5 else ''))
+        with open(b + '/Manifest', 'w') as f:
+            f.write(mtext.render([mtext.file_entry('DATA', 'top', b'3', ['MD5']),
+                                  mtext.file_entry('DATA', 'sub/s', b'stale', ['MD5']),
+                                  {'tag': 'DIST', 'path': 'd.tar', 'size': 1,
+                                   'sums': {'MD5': 'ab' * 16}}]) + ts + '\n')
+        order = rng.choice([[a, b + '/sub'], [a, b + '/sub/deep'], [b + '/sub', a],
+                            [a, a + '/x', b + '/sub']])
+        case = {'kind': 'multi', 'order': [o.replace(d, '<d>') for o in order],
+                'idx': idx, 'gen_seed': ctx.seed}
+        ctx.case(sig=('multi', tuple(case['order'])), case=case, klass='cli-multi')
+        mans_b0 = manifest_state(b)
+        with audit.Recording(d) as rec:
+            try:
+                rc = gcli.main(['gemato', 'update', '--hashes', 'SHA256'] + order)
+            except SystemExit:
+                rc = 'exit'
+            except Exception as exc:
+                rc = exc
+        ctx.count('cli_multi_histories')
+        mans_b1 = manifest_state(b)
+        t0, t1 = lines_of(mans_b0, 'TIMESTAMP'), lines_of(mans_b1, 'TIMESTAMP')
+        if t0 != t1:
+            ctx.violation('TIMESTAMP-changed:multi-path', 'updating only a sub-directory '
+                          'of tree B (after a whole-tree path in the same invocation) '
+                          'changed its TIMESTAMP %r -> %r (rc=%r)' % (
+                              sorted(t0), sorted(t1), rc), case)
+        if lines_of(mans_b0, 'DIST') != lines_of(mans_b1, 'DIST'):
+            ctx.violation('DIST-lines-not-preserved', 'multi-path update lost DIST lines',
+                          case)
+
+
 def run_unit(u, ctx):
+    if u.get('k') == 'multi':
+        for j in range(u['n']):
+            run_multi(ctx, common.rng_for(ctx.seed, ID, 'multi', u['i'], j),
+                      u['i'] * 100 + j)
+        return
     for j in range(u['n']):
         rng = common.rng_for(ctx.seed, ID, u['i'], j)
         with common.Scratch('vf-c10-') as d:
@@ -421,6 +475,11 @@ def judge_wrapper(ctx, root, jcase, case):
 
 
 def replay(case, ctx):
+    if case.get('kind') == 'multi':
+        ctx.seed = case.get('gen_seed', ctx.seed)
+        run_multi(ctx, common.rng_for(ctx.seed, ID, 'multi', case['idx'] // 100,
+                                      case['idx'] % 100), case['idx'])
+        return
     with common.Scratch('vf-c10-') as d:
         root = os.path.join(d, 't')
         scenario.rebuild(root, case)
